@@ -556,3 +556,10 @@ func (k *l1Kind) prepare(op Op) {
 }
 
 func (k *l1Kind) pool() *sql.DB { return k.node.VerifDB() }
+
+func (k *l1Kind) twinPath() string { return tmpDB(k.dir, fmt.Sprintf("twin%d.sqlite", k.twinN)) }
+func (k *l1Kind) twinProcess(op Op) error {
+	blk, _ := k.build(op)
+	blk.Events = cloneL1Events(blk.Events)
+	return k.twin.VerifProcessBlock(context.Background(), blk)
+}
